@@ -87,6 +87,64 @@ Section Loop.
           -- simpl. apply Hbail. reflexivity.
           -- apply IH; auto.
   Qed.
+
+  (* Since the repair of F-C05a (a skipped stripe no longer stores the hashes it computed) the stripes need not be
+     distinct: PastOK also survives at the visited position (sync_stripe_past). *)
+  Lemma loop_step_any o now iob fs (faults : nat -> list (option rd)) pos rest c par :
+    (forall p, In p (pos :: rest) -> faults_wf bs c p (faults p)) ->
+    MapOK c -> ParOK hashf bs c par -> (forall p, In p (pos :: rest) -> PastOK hashf bs c par p) ->
+    let r := sync_stripe hashf bs nlev o now iob c (map (fun lv => nth pos lv PNone) par) fs (faults pos) pos in
+    let par' := match so_write r with Some v => set_parity par pos v | None => par end in
+    MapOK (so_content r) /\ ParOK hashf bs (so_content r) par'
+    /\ (forall p, In p rest -> faults_wf bs (so_content r) p (faults p))
+    /\ (forall p, In p rest -> PastOK hashf bs (so_content r) par' p).
+  Proof.
+    intros Hwf HM HP HPast r par'.
+    assert (Hw0 : faults_wf bs c pos (faults pos)) by (apply Hwf; left; reflexivity).
+    assert (Hp0 : PastOK hashf bs c par pos) by (apply HPast; left; reflexivity).
+    split; [apply sync_stripe_map; exact HM|].
+    split; [apply sync_stripe_par; assumption|].
+    destruct (sync_stripe_other_stripes hashf bs nlev o now iob c (map (fun lv => nth pos lv PNone) par) fs (faults pos) pos) as [_ HF].
+    fold r in HF.
+    split.
+    - intros p Hp. apply sync_stripe_faults_wf. apply Hwf. right. exact Hp.
+    - intros p Hp. destruct (Nat.eq_dec p pos) as [->|Hne].
+      + apply sync_stripe_past; assumption.
+      + destruct (HF p Hne) as (HV & _ & _ & HQ & _).
+        intro Hq. apply HQ in Hq.
+        eapply same_views_par_enc; [exact HV|].
+        assert (HE : par_enc hashf bs c par p) by (apply HPast; [right; exact Hp | exact Hq]).
+        unfold par'. destruct (so_write r); [apply par_enc_set_other; assumption | exact HE].
+  Qed.
+
+  Theorem sync_loop_inv_any : forall stripes o now fs faults stop c par ne ns ni,
+    (forall p, In p stripes -> faults_wf bs c p (faults p)) ->
+    MapOK c -> ParOK hashf bs c par -> (forall p, In p stripes -> PastOK hashf bs c par p) ->
+    let r := sync_loop hashf bs nlev o now fs faults stripes stop c par ne ns ni in
+    MapOK (ro_content r) /\ ParOK hashf bs (ro_content r) (ro_parity r).
+  Proof.
+    induction stripes as [|pos rest IH]; intros o now fs faults stop c par ne ns ni Hwf HM HP HPast.
+    - simpl. auto.
+    - cbn [sync_loop].
+      destruct (negb (stripe_enabled o (map (fun od => match od with Some d => slot_at d pos | None => SEmpty end) (c_disks c)))).
+      + apply IH; auto. intros p Hp. apply Hwf. right. exact Hp. intros p Hp. apply HPast. right. exact Hp.
+      + pose proof (loop_step_any o now ni fs faults pos rest c par Hwf HM HP HPast) as HS. cbv zeta in HS.
+        destruct HS as (M' & P' & W' & Q').
+        assert (Hbail : so_bail (sync_stripe hashf bs nlev o now ni c (map (fun lv => nth pos lv PNone) par) fs (faults pos) pos) = true ->
+                        MapOK (so_content (sync_stripe hashf bs nlev o now ni c (map (fun lv => nth pos lv PNone) par) fs (faults pos) pos))
+                        /\ ParOK hashf bs (so_content (sync_stripe hashf bs nlev o now ni c (map (fun lv => nth pos lv PNone) par) fs (faults pos) pos)) par).
+        { intro Hb. apply sync_stripe_bail_nowrite in Hb. rewrite Hb in P'. auto. }
+        destruct stop as [[|k]|].
+        * simpl. auto.
+        * cbv zeta.
+          destruct (so_bail (sync_stripe hashf bs nlev o now ni c (map (fun lv => nth pos lv PNone) par) fs (faults pos) pos)) eqn:Eb.
+          -- simpl. apply Hbail. reflexivity.
+          -- apply IH; auto.
+        * cbv zeta.
+          destruct (so_bail (sync_stripe hashf bs nlev o now ni c (map (fun lv => nth pos lv PNone) par) fs (faults pos) pos)) eqn:Eb.
+          -- simpl. apply Hbail. reflexivity.
+          -- apply IH; auto.
+  Qed.
 End Loop.
 
 (* ---------------------------------------------------------------------------------------------------------- *)
